@@ -49,6 +49,7 @@ pub struct Info {
     pub came_up_on_tip: usize,
     pub extended_after_reboot: usize,
     pub max_height: u64,
+    pub invalid_side_blocks_stored: usize,
 }
 
 fn in_window_set(chain: &saito_core::core::consensus::blockchain::Blockchain, gp: u64) -> BTreeSet<UKey> {
@@ -76,7 +77,7 @@ fn reboot(ncfg: NodeCfg, files: BTreeMap<String, Vec<u8>>) -> (NetNode, HandlerO
 }
 
 /// Checks a rebooted node. `allowed`: hashes of blocks whose file was complete before the crash.
-fn check_rebooted(n: &mut NetNode, table: &BlockTable, allowed: &BTreeSet<SaitoHash>, gp: u64, issued: u128, ctxs: &str, info: &mut Info, pre_tip: SaitoHash) -> Vec<(String, String)> {
+fn check_rebooted(n: &mut NetNode, table: &BlockTable, allowed: &BTreeSet<SaitoHash>, invalid: &BTreeSet<SaitoHash>, gp: u64, issued: u128, ctxs: &str, info: &mut Info, pre_tip: SaitoHash) -> Vec<(String, String)> {
     let mut v = vec![];
     let (tip_id, tip_hash) = n.tip();
     if tip_hash == [0; 32] {
@@ -98,6 +99,13 @@ fn check_rebooted(n: &mut NetNode, table: &BlockTable, allowed: &BTreeSet<SaitoH
         Some(p) => p,
         None => return v,
     };
+    if let Some(bad) = path.iter().find(|b| invalid.contains(&b.hash)) {
+        v.push((
+            format!("C12|invalid_block_on_chain_after_restart|{ctxs}"),
+            format!("after the restart the chain of the tip (height {}) contains block {} (height {}), which is invalid by construction and was never accepted onto the chain before the crash", tip_id, hx(&bad.hash), bad.id),
+        ));
+        return v;
+    }
     // C03-style consistency on what the node keeps (heights it loaded)
     {
         let chain = block_on(n.chain_lock.read());
@@ -168,6 +176,16 @@ fn check_rebooted(n: &mut NetNode, table: &BlockTable, allowed: &BTreeSet<SaitoH
     v
 }
 
+const F37_KEY: &str = "C12|restart_adopts_unvalidated_side_block|window_not_loaded";
+
+/// Finding F37: the file set holds a block that is invalid by construction (stored as a side-chain
+/// block without ever being validated) and no longer holds the genesis block, so the restarting node
+/// loads it while utxo validation is still switched off.
+fn f37_applies(files: &BTreeMap<String, Vec<u8>>, built: &Built) -> bool {
+    let name = |b: &Block| format!("{}{}", BLOCK_DIR, b.get_file_name());
+    !files.contains_key(&name(&built.blocks[0])) && built.blocks.iter().zip(built.invalid.iter()).any(|(b, i)| i.is_some() && files.contains_key(&name(b)))
+}
+
 pub fn run_case(case: &Case, full: bool) -> (Vec<(String, String)>, Info) {
     let mut info = Info::default();
     let mut v: Vec<(String, String)> = vec![];
@@ -175,6 +193,7 @@ pub fn run_case(case: &Case, full: bool) -> (Vec<(String, String)>, Info) {
     let issued: u128 = case.hist.issuance.iter().map(|(_, a)| *a as u128).sum::<u128>() + case.hist.treasury as u128;
     let built = block_on(build_history(&case.hist));
     let table = BlockTable::from_blocks(&built.blocks);
+    let invalid: BTreeSet<SaitoHash> = built.blocks.iter().zip(built.invalid.iter()).filter(|(_, i)| i.is_some()).map(|(b, _)| b.hash).collect();
     // the node whose storage is journalled
     let mut d = Deliverer::new(Node::new(case.hist.ncfg, 0), 10_000);
     // (journal length after the delivery, tip after the delivery, was this delivery a reorganisation)
@@ -194,20 +213,41 @@ pub fn run_case(case: &Case, full: bool) -> (Vec<(String, String)>, Info) {
         marks.push((j.len(), d.node.tip().1, reorg, pruned));
         info.max_height = info.max_height.max(d.node.tip().0);
     }
+    info.invalid_side_blocks_stored = invalid.iter().filter(|h| d.node.chain.blocks.contains_key(*h)).count();
     let journal = d.node.io.journal();
     info.journal_ops = journal.len();
     let final_files = d.node.io.files();
     let final_tip = d.node.tip();
 
     // ---- clean restart ----
-    {
+    let mut f37_hit = false;
+    'clean: {
+        let f37 = f37_applies(&final_files, &built);
         let (mut n, o) = reboot(case.hist.ncfg, final_files.clone());
         info.reboots += 1;
         if let HandlerOutcome::Panicked(site, msg) = o {
+            if f37 {
+                v.push((F37_KEY.into(), format!("restart from the final file set panicked at {site}: {msg}")));
+                f37_hit = true;
+                break 'clean;
+            }
             v.push((format!("C12|panic_on_clean_restart|site={site}"), format!("restart from the final file set panicked at {site}: {msg}")));
             return (v, info);
         }
         let t = n.tip();
+        if f37 {
+            // judged as a whole: any deviation is attributed to the finding
+            let before = in_window_set(&d.node.chain, gp);
+            let after = in_window_set(&block_on(n.chain_lock.read()), gp);
+            let allowed: BTreeSet<SaitoHash> = table.by_hash.keys().cloned().collect();
+            let r = check_rebooted(&mut n, &table, &allowed, &invalid, gp, issued, "clean", &mut info, final_tip.1);
+            if t != final_tip || before != after || !r.is_empty() {
+                let what = r.first().map(|x| x.1.clone()).unwrap_or_else(|| "tip or spendable set differ after a clean restart".into());
+                v.push((F37_KEY.into(), what));
+                f37_hit = true;
+            }
+            break 'clean;
+        }
         if t != final_tip {
             v.push(("C12|clean_restart_tip_differs".into(), format!("before shutdown the tip was {}/{}, after a clean restart it is {}/{}", final_tip.0, hx(&final_tip.1), t.0, hx(&t.1))));
             return (v, info);
@@ -222,7 +262,7 @@ pub fn run_case(case: &Case, full: bool) -> (Vec<(String, String)>, Info) {
             return (v, info);
         }
         let allowed: BTreeSet<SaitoHash> = table.by_hash.keys().cloned().collect();
-        v.extend(check_rebooted(&mut n, &table, &allowed, gp, issued, "clean", &mut info, final_tip.1));
+        v.extend(check_rebooted(&mut n, &table, &allowed, &invalid, gp, issued, "clean", &mut info, final_tip.1));
         if !v.is_empty() {
             return (v, info);
         }
@@ -277,6 +317,10 @@ pub fn run_case(case: &Case, full: bool) -> (Vec<(String, String)>, Info) {
                         }
                         // blocks whose file is completely on disk
                         let allowed: BTreeSet<SaitoHash> = table.by_hash.iter().filter(|(_, b)| f.get(&format!("{}{}", BLOCK_DIR, b.get_file_name())).map(|c| c.len()) == Some(b.serialize_for_net(saito_core::core::consensus::block::BlockType::Full).len())).map(|(h, _)| *h).collect();
+                        let f37 = f37_applies(&f, &built);
+                        if f37 && f37_hit {
+                            continue; // already attributed once in this history
+                        }
                         let (mut n, o) = reboot(case.hist.ncfg, f);
                         info.reboots += 1;
                         if !matches!(tear, Tear::Complete | Tear::Absent) {
@@ -284,10 +328,20 @@ pub fn run_case(case: &Case, full: bool) -> (Vec<(String, String)>, Info) {
                         }
                         let ctxs = format!("tear={:?}", tear);
                         if let HandlerOutcome::Panicked(site, msg) = o {
+                            if f37 {
+                                v.push((F37_KEY.into(), format!("restart after a crash at journal op {k} ({:?}) panicked at {site}: {msg}", tear)));
+                                f37_hit = true;
+                                continue;
+                            }
                             v.push((format!("C12|panic_on_restart|site={site}|{ctxs}"), format!("restart after a crash at journal op {k} ({:?}) panicked at {site}: {msg}", tear)));
                             return (v, info);
                         }
-                        let r = check_rebooted(&mut n, &table, &allowed, gp, issued, &ctxs, &mut info, pre_tip);
+                        let r = check_rebooted(&mut n, &table, &allowed, &invalid, gp, issued, &ctxs, &mut info, pre_tip);
+                        if !r.is_empty() && f37 {
+                            v.push((F37_KEY.into(), format!("crash at journal op {k}/{}: {}", journal.len(), r[0].1)));
+                            f37_hit = true;
+                            continue;
+                        }
                         if !r.is_empty() {
                             for (key, what) in r {
                                 v.push((key, format!("crash at journal op {k}/{}: {what}", journal.len())));
@@ -317,6 +371,7 @@ fn eval(c: &mut Ctx, case: &Case, counting: bool, full: bool) -> Vec<(String, St
             (info.came_up_on_ancestor, "came_up_on_an_earlier_block"),
             (info.came_up_on_tip, "came_up_on_pre_crash_tip"),
             (info.extended_after_reboot, "extended_chain_after_reboot"),
+            (info.invalid_side_blocks_stored, "invalid_side_block_on_disk_at_shutdown"),
         ] {
             if n > 0 {
                 *c.classes.entry(k.to_string()).or_insert(0) += n as u64;
@@ -345,6 +400,41 @@ pub fn arb_case(max_blocks: usize) -> impl Strategy<Value = Case> {
                 // but not side chains whose fork point has been purged (known finding F10)
                 b.parent = None;
                 b.back = Some(1 + (p % 3) as u8);
+            }
+        }
+        // every eighth position: an *invalid* sibling of the previous block with an earlier timestamp
+        // (it arrives when its chain is not longer, so the node stores it without validating it; its
+        // file sorts before the honest sibling's), after which the history returns to the honest block
+        let n = hist.blocks.len();
+        for i in 0..n {
+            if i % 8 == 5 && i + 1 < n {
+                let prev_dt = hist.blocks[i - 1].dt;
+                let sel = hist.blocks[i].dt as usize + i;
+                let b = &mut hist.blocks[i];
+                b.parent = None;
+                b.back = Some(1);
+                b.dt = (prev_dt / 2).max(1);
+                if sel % 2 == 0 {
+                    const E: [crate::adversary::TxEdit; 5] = [
+                        crate::adversary::TxEdit::SpentInput,
+                        crate::adversary::TxEdit::NonExistentInput,
+                        crate::adversary::TxEdit::InflatedInput,
+                        crate::adversary::TxEdit::Overspend,
+                        crate::adversary::TxEdit::ForgedSig,
+                    ];
+                    b.bad_tx = Some((E[(sel / 2) % E.len()], 1, 0));
+                } else {
+                    const H: [crate::adversary::BlockEdit; 4] = [
+                        crate::adversary::BlockEdit::Treasury,
+                        crate::adversary::BlockEdit::Graveyard,
+                        crate::adversary::BlockEdit::PrevUnpaid,
+                        crate::adversary::BlockEdit::AvgTotalFees,
+                    ];
+                    b.corrupt = Some(H[(sel / 2) % H.len()]);
+                }
+                let r = &mut hist.blocks[i + 1];
+                r.parent = None;
+                r.back = Some(1);
             }
         }
         Case { hist }
